@@ -743,7 +743,7 @@ def search(ck, seeds=None):
 
 COQ_EXTRA = '''From Model Require Import PyHash Graph Morgan MorganFast Stereo Writer ChiralMorgan.
 From Model Require Import StereoRegistry.
-From Proofs Require Import WriterInvProofs WriterStereoExt StereoProofs RegistryRemapExt.
+From Proofs Require Import WriterInvProofs WriterStereoExt StereoProofs RegistryRemapExt StereoOrderExt EnvLaws CtMapOrderExt SameStereo.
 Import ListNotations.
 Open Scope Z_scope.
 Definition iadj_eqb (a b : iadj) : bool := list_eqb (pair_eqb Z.eqb (list_eqb (pair_eqb Z.eqb Z.eqb))) a b.
@@ -812,6 +812,84 @@ Definition perm_ok (f : list (Z * Z)) (g g' : mol) : bool :=
 Definition reord_ok (three : bool) (q : list Z) (sg sg' : bool) : bool :=
   if three then in_perms perms3 q && Bool.eqb sg' (xorb sg (odd_perm (q ++ [3])))
   else in_perms perms4 q && Bool.eqb sg' (xorb sg (odd_perm q)).
+(* hypotheses same_atom_stereo / same_ct_stereo of C01_smiles_invariant_discrete, decided on the atoms of the molecule by searching
+   the witnesses (re-ordering q of a tetrahedron, swaps sa sb and exchange xe of an environment, orientation of a centre pair):
+   g' = molecule rebuilt through the public API with atoms, bonds and neighbours inserted in another order and other numbers *)
+Definition bools : list bool := [false; true].
+Definition oenv_eqb := option_eqb env_eqb.
+Definition env_ok_b (g : mol) (e : env4) : bool :=
+  let '(n0, n1, n2, n3) := e in
+  negb (n0 =? n1) && negb (is_H g n0) && negb (is_H g n1) &&
+  match n2 with Some x => negb (x =? n0) && negb (x =? n1) && negb (is_H g x) | None => true end &&
+  match n3 with Some y => negb (y =? n0) && negb (y =? n1) && negb (is_H g y) | None => true end &&
+  match n2, n3 with Some x, Some y => negb (x =? y) | _, _ => true end.
+Definition atom_same_b (s : Z -> Z) (g g' : mol) (tabs tabs' : stabs) (n : Z) : bool :=
+  match atom_of g n, atom_of g' (s n) with
+  | Some a, Some a' =>
+      match a_stereo a with
+      | None => match a_stereo a' with None => true | Some _ => false end
+      | Some sg =>
+          match a_stereo a' with
+          | None => false
+          | Some sg' =>
+              match zget (t_allene_term tabs) n with
+              | Some (t1, t2) =>
+                  match zget (t_allenes tabs) n with
+                  | None => false
+                  | Some env =>
+                      env_ok_b g env &&
+                      existsb (fun sa : bool => existsb (fun sb : bool => existsb (fun xe : bool =>
+                        implb sa (canA env) && implb sb (canB env) &&
+                        option_eqb zz_eqb (zget (t_allene_term tabs') (s n)) (Some (if xe then (s t2, s t1) else (s t1, s t2))) &&
+                        oenv_eqb (zget (t_allenes tabs') (s n)) (Some (ren_env s (var_env sa sb xe env))) &&
+                        Bool.eqb sg' (xorb sg (xorb sa sb))) bools) bools) bools
+                  end
+              | None =>
+                  match zget (t_allene_term tabs') (s n), zget (t_tetra tabs) n, zget (t_tetra tabs') (s n) with
+                  | None, Some order, Some order' =>
+                      option_eqb Z.eqb (a_h a') (a_h a) && nodup_z order &&
+                      (if Z.of_nat (List.length order) =? 4
+                       then existsb (fun q => list_eqb Z.eqb order' (map s (sel order q)) && Bool.eqb sg' (xorb sg (odd_perm q))) perms4
+                       else (Z.of_nat (List.length order) =? 3) &&
+                            existsb (fun q => list_eqb Z.eqb order' (map s (sel order q)) && Bool.eqb sg' (xorb sg (odd_perm (q ++ [3])))) perms3)
+                  | _, _, _ => false
+                  end
+              end
+          end
+      end
+  | _, _ => false
+  end.
+Definition ct_same_b (s : Z -> Z) (g g' : mol) (tabs tabs' : stabs) (k : Z) : bool :=
+  option_eqb Z.eqb (zget (t_ctcp tabs') (s k)) (option_map s (zget (t_ctcp tabs) k)) &&
+  match zget (t_ctc tabs) k, zget (t_ctc tabs') (s k) with
+  | None, None => true
+  | Some (i, j), Some c' => zz_eqb c' (s i, s j) || zz_eqb c' (s j, s i)
+  | _, _ => false
+  end &&
+  match envof tabs k with
+  | None => match envof tabs' (s k) with None => true | Some _ => false end
+  | Some e => existsb (fun sa : bool => existsb (fun sb : bool => existsb (fun xe : bool =>
+                oenv_eqb (envof tabs' (s k)) (Some (ren_env s (var_env sa sb xe e)))) bools) bools) bools
+  end &&
+  match zget (t_ctcp tabs) k with
+  | None => true
+  | Some o' =>
+      match oenv tabs k o' with
+      | None => match oenv tabs' (s k) (s o') with None => true | Some _ => false end
+      | Some e => existsb (fun sa : bool => existsb (fun sb : bool =>
+                    implb sa (canA e) && implb sb (canB e) &&
+                    oenv_eqb (oenv tabs' (s k) (s o')) (Some (ren_env s (var_env sa sb false e))) &&
+                    option_eqb Bool.eqb (centre_stereo g' tabs' (s k)) (option_map (fun s0 => xorb s0 (xorb sa sb)) (centre_stereo g tabs k)))
+                  bools) bools
+      end
+  end.
+Definition same_stereo_ok (f : list (Z * Z)) (g g' : mol) (tabs tabs' : stabs) : bool :=
+  let s := sfun f in
+  forallb (fun na => negb (a_num (snd na) =? 1)) (m_atoms g) && forallb (fun na => negb (a_num (snd na) =? 1)) (m_atoms g') &&
+  mol_eqb (norm_mol (ren_mol s (strip g))) (norm_mol (strip g')) && wf_mol (strip g) && wf_mol (strip g') &&
+  forallb (atom_same_b s g g' tabs tabs') (ids g) && forallb (ct_same_b s g g' tabs tabs') (ids g) &&
+  list_eqb Z.eqb (isort Z.leb (map s (stereo_bond_atoms g))) (isort Z.leb (stereo_bond_atoms g')) &&
+  forallb (fun ke => env_ok_b g (snd ke)) (t_sct tabs) && forallb (fun ke => env_ok_b g' (snd ke)) (t_sct tabs').
 (* the Uint63 hash against the arbitrary-precision model of PyHash.v *)
 Definition h_ok (l : list Z) (v : Z) : bool := (hash63 l =? v) && (hash_ztuple l =? v).
 '''
@@ -1151,6 +1229,11 @@ def correspondence(ck):
                 new, fmap, complete = rebuild(kk, rng)
             except Exception:
                 complete = False
+            if complete and all(a.atomic_number != 1 for _, a in kk.atoms()) and n_stereo(new) == n_stereo(kk):
+                cases.append(f'same_stereo_ok {zmap(fmap)} {mol_term(kk)} {mol_term(new)} {tabs_term(kk)} {tabs_term(new)}')
+                meta.append(('same-stereo', smi, str(new)))
+                ck.case(('corr-same-stereo', smi, tuple(new._atoms)), nontrivial=True)
+                ck.count('corr:same-stereo-hypotheses')
             if complete:
                 inv = {v: k for k, v in fmap.items()}
                 for n, a in kk._atoms.items():
@@ -1257,7 +1340,8 @@ def run(ck):
                      'writer-keys': 'start atom / first child of _smiles', 'chiral': '_chiral_morgan / __differentiation (weights, _morgan inputs)',
                      'remap-registries': 'remap() = ren_mol and its stereo registries = renamed registries',
                      'insertion-order': 'renumbered + shuffled molecule is mol_perm of ren_mol, both well-formed',
-                     'reordered-label': 'rebuilt molecule: stored tetrahedral sign = old sign xor parity of the registry re-ordering', 'writer': 'canonical string and order of _smiles (writer model)'}
+                     'reordered-label': 'rebuilt molecule: stored tetrahedral sign = old sign xor parity of the registry re-ordering',
+                     'same-stereo': 'rebuilt molecule satisfies same_atom_stereo / same_ct_stereo (hypotheses of C01_smiles_invariant_discrete)', 'writer': 'canonical string and order of _smiles (writer model)'}
             ck.unchecked('correspondence model vs implementation: ' + '; '.join(where.get(k, k) for k in kinds), log[-1500:],
                          [repr(x)[:400] for x in bad[:20]])
     ck.extra['proved'] = proved
